@@ -819,6 +819,10 @@ class Summary(object):
         return conj(pc, neg(disj(*gone))) if gone else pc
 
     def assign_name(self, name, alts, env, pc):
+        if name in _mutated_locals(self._cur_frame.func):
+            # a container that is filled in place keeps its name (its contents are not tracked)
+            env[name] = [(True, ast.Name(id=name, ctx=ast.Load()))]
+            return
         alts = _split_ifexp(self, alts, env, pc)
         if any(name in c for c in self.carried):
             for g, v in alts:
@@ -1107,6 +1111,32 @@ class Summary(object):
         return disj(*[e.cond for e in effs])
 
 
+_MUT_METHODS = frozenset(('append', 'add', 'update', 'extend', 'insert', 'pop', 'remove', 'clear', 'setdefault', 'discard', 'sort', 'reverse', 'popitem'))
+
+
+def _mutated_locals(func):
+    cached = getattr(func, '_gsa_mutated', None)
+    if cached is not None:
+        return cached
+    out = set()
+    for n in P.walk_no_nested(func):
+        if isinstance(n, (ast.Assign, ast.AugAssign, ast.Delete)):
+            tg = n.targets if isinstance(n, (ast.Assign, ast.Delete)) else [n.target]
+            for t in tg:
+                if isinstance(t, ast.Subscript) and isinstance(t.value, ast.Name):
+                    out.add(t.value.id)
+        elif isinstance(n, ast.Call) and isinstance(n.func, ast.Attribute) and isinstance(n.func.value, ast.Name) and n.func.attr in _MUT_METHODS:
+            out.add(n.func.value.id)
+    # lists of attribute tuples are tracked element-wise (ListVal); keep those
+    lists = set()
+    for n in P.walk_no_nested(func):
+        if isinstance(n, ast.Assign) and len(n.targets) == 1 and isinstance(n.targets[0], ast.Name) and isinstance(n.value, ast.List):
+            lists.add(n.targets[0].id)
+    out -= lists
+    func._gsa_mutated = out
+    return out
+
+
 def _read_before_write(stmts, name):
     """may `name` be read in the block before it is (re)assigned on that path?  (conservative: any load that is not
     preceded, in the same straight-line block, by an unconditional store)"""
@@ -1368,3 +1398,40 @@ def decide_by(spec, default=None):
                 return v
         return default
     return f
+
+
+def truth_returns(summ, decide):
+    """like returns_under, but boolean-valued return expressions are evaluated: [(True|False|text, definite?)]"""
+    out = []
+    fr = _Frame(summ.func, getattr(summ.func, '_module', summ.mod), ())
+    for text, node, definite in returns_under(summ, decide):
+        if node is None:
+            out.append((None, definite))
+            continue
+        f = summ.truth(node, fr)
+        if f is True or f is False:
+            out.append((f, definite))
+            continue
+        val = {}
+        for a in atoms(f):
+            v = decide(a)
+            if v is not None:
+                val[a] = v
+        v = ev3(f, val)
+        out.append((v if v is not None else text, definite))
+    return out
+
+
+def cond_any(effs):
+    return disj(*[e.cond for e in effs])
+
+
+def depends_negatively(cond, pattern):
+    """making every atom matching `pattern` false can only add to the condition, and does change it"""
+    p = _rx(pattern)
+    names = [a for a in atoms(cond) if p.search(a)]
+    if not names:
+        return False
+    f0 = assign(cond, dict((a, False) for a in names))
+    f1 = assign(cond, dict((a, True) for a in names))
+    return implies(f1, f0) and not equiv(f0, f1)
